@@ -12,6 +12,7 @@ RULE = ('random histories over a 1-3 level hierarchy (constant Parameter / const
         'edit_constant blocks (also with other instances touched inside), reads of inst.param[p] (creates per-instance '
         'Parameter copies before/after blocks). Judged against a model: held object identity per (instance, parameter), '
         'TypeError for every forbidden attempt, flags (behavioural probe + class-level flag read) after every block. '
+        '6 % of the cases run the same clauses on a shipped class (param.Time.time_type, changed through its own call interface). '
         'non-trivial = history contains an edit_constant block and a forbidden attempt after it; distinct by op-kind sequence')
 PARAMS = {
     'quick': dict(cases=1500, shards=8, maxlen=16),
@@ -23,7 +24,7 @@ ASSUMPTIONS = [
     're-assigning the identical object may raise or not; only "the held object did not change" is required',
 ]
 REQUIRED = {'forbidden_attempts': 3000, 'blocks': 500, 'blocks_raised': 100, 'flag_probes': 2000, 'ctor_constant_reference': 50,
-            'ctor_constant_pending_reference': 50}
+            'ctor_constant_pending_reference': 50, 'library_attempts': 100}
 
 _st = {}
 
@@ -52,8 +53,62 @@ class Tok:
         return Tok()
 
 
+def library_case(idx, rng, P, rep):
+    """The same clauses on a class shipped by the library: param.Time.time_type is constant and only Time's own call
+    interface (documented as the way to change it) may rebind it."""
+    import fractions
+    param = _st['param']
+    t = param.Time()
+    kinds = []
+    types = [int, float, fractions.Fraction]
+
+    def viol(key, msg):
+        rep.violation(f'C14/{key}', msg, case=dict(library_class='param.Time', ops=kinds))
+
+    for _ in range(rng.randint(2, 8)):
+        c = rng.random()
+        if c < 0.3:
+            kinds.append('touch')
+            t.param['time_type']
+        elif c < 0.65:
+            tt = rng.choice(types)
+            kinds.append('call-with-time_type')
+            t(rng.randint(0, 5), time_type=tt)
+            if t.time_type is not tt:
+                viol('library/time_type-not-changed-by-its-own-interface', f'Time()(v, time_type={tt.__name__}) left {t.time_type}')
+        elif c < 0.8:
+            kinds.append('context')
+            with t as tc:
+                tc(rng.randint(0, 9))
+        else:
+            kinds.append('new-instance')
+            t = param.Time()
+        held = t.time_type
+        for how in ('set', 'update'):
+            new = rng.choice([x for x in types if x is not held])
+            rep.count('forbidden_attempts')
+            rep.count('library_attempts')
+            try:
+                if how == 'set':
+                    t.time_type = new
+                else:
+                    t.param.update(time_type=new)
+                viol('rebind-allowed-outside-block/library-class', f'after {kinds}: Time().time_type = {new.__name__} ({how}) succeeded outside edit_constant')
+                held = t.time_type
+            except TypeError:
+                pass
+            if t.time_type is not held:
+                viol('held-object-changed', f'Time().time_type changed by a refused {how}')
+        if param.Time.param['time_type'].constant is not True or t.param['time_type'].constant is not True:
+            viol('class-flag-not-restored', f'after {kinds}: time_type.constant is class={param.Time.param["time_type"].constant} '
+                 f'instance={t.param["time_type"].constant}')
+    rep.case(('library', tuple(kinds)), nontrivial='call-with-time_type' in kinds)
+
+
 def run_case(idx, rng, P, rep):
     param = _st['param']
+    if rng.random() < 0.06:
+        return library_case(idx, rng, P, rep)
     edit_constant = param.parameterized.edit_constant
     # ---- hierarchy
     depth = rng.randint(1, 3)
